@@ -63,6 +63,14 @@ def oracle(c, o):
         if got_far != want_far or (post["far"] is not None and post["far"][1] != post["far"][0]) or post["far_key"] != got_far:
             v.append(("views-disagree", "step %d (%s): farthest_record is %s, the farthest held key is %s"
                       % (i, name, post["far"], want_far)))
+        # 1b. once settled no record file is left without an index entry (every removal deletes its file)
+        if post["ntasks"] == 0 and not post["chan"]:
+            held = set(post_idx)
+            orphans = [f[0] for f in post["files"] if f[0] not in held]
+            if orphans:
+                v.append(("file-without-index-entry-when-settled", "step %d (%s): settled, but the files of keys %s are still on "
+                          "disk although the keys are not in the index (they would be served again after a restart)"
+                          % (i, name, orphans[:5])))
         # 2. accept / refuse decision
         if name in ("put", "put_local") and not (name == "put_local" and out["put_local"] == 2) and not t.partial:
             k, val = op["k"], op["v"]
